@@ -30,6 +30,7 @@ type jnode struct {
 	start, end int    // span of the value in the source
 	str        string // jStr: unescaped value (raw bytes kept, lone surrogates -> U+FFFD); jNum: literal
 	escaped    bool   // jStr: raw text contains a backslash
+	lone       bool   // jStr: contains a lone surrogate escape (meaning not settled by RFC 8259); jObj: some key does
 	keys       []string
 	vals       []*jnode
 }
@@ -177,7 +178,7 @@ func (p *jparser) str() (*jnode, error) {
 	b := p.b
 	p.i++ // opening quote
 	var sb []byte
-	esc := false
+	esc, lone := false, false
 	for {
 		if p.i >= len(b) {
 			return nil, jerr("unterminated string", p.i)
@@ -186,7 +187,7 @@ func (p *jparser) str() (*jnode, error) {
 		switch {
 		case c == '"':
 			p.i++
-			return &jnode{kind: jStr, start: s, end: p.i, str: string(sb), escaped: esc}, nil
+			return &jnode{kind: jStr, start: s, end: p.i, str: string(sb), escaped: esc, lone: lone}, nil
 		case c < 0x20:
 			return nil, jerr("control character in string", p.i)
 		case c == '\\':
@@ -226,6 +227,7 @@ func (p *jparser) str() (*jnode, error) {
 						}
 					}
 					r = utf8.RuneError
+					lone = true
 				}
 				sb = utf8.AppendRune(sb, r)
 			default:
@@ -311,6 +313,9 @@ func (p *jparser) object() (*jnode, error) {
 		}
 		n.keys = append(n.keys, k.str)
 		n.vals = append(n.vals, v)
+		if k.lone {
+			n.lone = true
+		}
 		p.ws()
 		if p.i >= len(p.b) {
 			return nil, jerr("unterminated object", p.i)
@@ -335,6 +340,19 @@ func (n *jnode) get(key string) *jnode {
 	}
 	for i := len(n.keys) - 1; i >= 0; i-- {
 		if n.keys[i] == key {
+			return n.vals[i]
+		}
+	}
+	return nil
+}
+
+// getFirst returns the first member with that key, or nil.
+func (n *jnode) getFirst(key string) *jnode {
+	if n == nil || n.kind != jObj {
+		return nil
+	}
+	for i, k := range n.keys {
+		if k == key {
 			return n.vals[i]
 		}
 	}
@@ -408,7 +426,7 @@ func jsonEqual(a, b *jnode, path string, override func(path string, a, b *jnode)
 			return false, path, "number"
 		}
 	case jStr:
-		if a.str != b.str && fffd(a.str) != fffd(b.str) {
+		if a.str != b.str && fffd(a.str) != fffd(b.str) && !a.lone && !b.lone {
 			return false, path, "string"
 		}
 	case jArr:
@@ -442,6 +460,9 @@ func jsonEqual(a, b *jnode, path string, override func(path string, a, b *jnode)
 				sub = path + "." + k
 			}
 			vb, ok := mb[k]
+			if !ok && (a.lone || b.lone) {
+				continue
+			}
 			if !ok {
 				if override != nil {
 					if handled, _ := override(sub, va, nil); handled {
@@ -456,7 +477,7 @@ func jsonEqual(a, b *jnode, path string, override func(path string, a, b *jnode)
 		}
 		for _, k := range b.keys {
 			k = fffd(k)
-			if _, ok := ma[k]; !ok {
+			if _, ok := ma[k]; !ok && !a.lone && !b.lone {
 				sub := k
 				if path != "" {
 					sub = path + "." + k
